@@ -209,6 +209,11 @@ def main():
                            'histories of length <= 8 sampled from Lifecycle.tla; distinct '
                            'non-trivial = distinct (workbook, history) with >= 3 operations')
         rep.cov['histories'] = len(recs)
+        # Assemble.tla: the inverse side of the range wiring - a value supplied through a
+        # requested rectangle reaches every populated cell inside it (other layouts than
+        # the sample C03 takes)
+        from .. import asm
+        asm.check(rep, 1000 if not thorough else 8000, seed() + 77, pid=PID)
     finally:
         shutil.rmtree(wd, ignore_errors=True)
     return rep.finish()
